@@ -26,6 +26,11 @@ pub fn ident(rng: &mut Rng) -> String {
     if rng.chance(1, 4) {
         return rng.pick(NEAR_KEYWORDS).to_string();
     }
+    if rng.chance(1, 250) {
+        // length boundaries
+        let n = *rng.pick(&[31usize, 32, 33, 63, 64, 65, 127, 128, 129, 255, 256, 257, 1000]);
+        return format!("L{}", "x".repeat(n - 1));
+    }
     let first = b"abcdefghijklmnopqrstuvwxyzABCDEFGHIJKLMNOPQRSTUVWXYZ_";
     let rest = b"abcdefghijklmnopqrstuvwxyzABCDEFGHIJKLMNOPQRSTUVWXYZ_0123456789";
     loop {
@@ -65,6 +70,10 @@ pub const PRIMS: &[&str] = &["byte", "short", "int", "long", "float", "double", 
 // Literals
 
 pub fn integer_lit(rng: &mut Rng) -> String {
+    if rng.chance(1, 8) {
+        // boundary values (all fit u32)
+        return rng.pick_str(&["255", "256", "65535", "65536", "16777214", "16777215", "16777216", "2147483647", "2147483648", "4294967294", "4294967295", "0000000001", "1"]).to_string();
+    }
     match rng.below(6) {
         0 => "0".into(),
         1 => format!("{}", rng.below(10)),
@@ -134,7 +143,7 @@ pub fn annotation(rng: &mut Rng) -> Ann {
     const NAMES: &[&str] = &["nullable", "utf8InCpp", "Backing", "VintfStability", "JavaOnlyStableParcelable", "A", "X_1", "_x", "in", "int", "for", "List"];
     let name = if rng.chance(3, 4) { rng.pick(NAMES).to_string() } else { ident(rng) };
     let params = if rng.chance(1, 2) {
-        let n = rng.below(4);
+        let n = if rng.chance(1, 300) { rng.range(31, 40) } else { rng.below(4) };
         let mut v = Vec::new();
         for _ in 0..n {
             let mut k = ident(rng);
@@ -165,7 +174,7 @@ pub fn annotation(rng: &mut Rng) -> Ann {
 pub fn annotations(rng: &mut Rng, p_num: usize, p_den: usize) -> Vec<Ann> {
     let mut v = Vec::new();
     if rng.chance(p_num, p_den) {
-        let n = rng.range(1, 3);
+        let n = if rng.chance(1, 300) { rng.range(31, 40) } else { rng.range(1, 3) };
         for _ in 0..n {
             v.push(annotation(rng));
         }
@@ -271,7 +280,7 @@ pub fn arg(rng: &mut Rng, cfg: &GenCfg) -> Arg {
 }
 
 pub fn method(rng: &mut Rng, cfg: &GenCfg) -> Member {
-    let nargs = rng.below(cfg.max_args + 1);
+    let nargs = if cfg.big && rng.chance(1, 150) { rng.range(31, 70) } else { rng.below(cfg.max_args + 1) };
     let args: Vec<Arg> = (0..nargs).map(|_| arg(rng, cfg)).collect();
     Member::Method {
         anns: annotations(rng, cfg.ann_num, cfg.ann_den),
@@ -324,7 +333,15 @@ pub fn enum_elem(rng: &mut Rng, cfg: &GenCfg) -> Member {
 
 pub fn item(rng: &mut Rng, cfg: &GenCfg) -> Item {
     let kind = cfg.kind.unwrap_or_else(|| *rng.pick(&[ItemKind::Interface, ItemKind::Interface, ItemKind::Parcelable, ItemKind::Parcelable, ItemKind::Enum]));
-    let n = if cfg.big && rng.chance(1, 25) { rng.range(33, 80) } else { rng.below(cfg.max_members + 1) };
+    let n = if cfg.big && rng.chance(1, 25) {
+        if rng.chance(1, 8) {
+            *rng.pick(&[127usize, 128, 129, 255, 256, 257])
+        } else {
+            rng.range(31, 80)
+        }
+    } else {
+        rng.below(cfg.max_members + 1)
+    };
     let mut members = Vec::new();
     for _ in 0..n {
         members.push(match kind {
@@ -368,7 +385,15 @@ pub fn item(rng: &mut Rng, cfg: &GenCfg) -> Item {
 }
 
 pub fn doc(rng: &mut Rng, cfg: &GenCfg) -> Doc {
-    let ni = if cfg.big && rng.chance(1, 30) { rng.range(33, 70) } else { rng.below(cfg.max_imports + 1) };
+    let ni = if cfg.big && rng.chance(1, 30) {
+        if rng.chance(1, 8) {
+            *rng.pick(&[128usize, 256, 257])
+        } else {
+            rng.range(31, 70)
+        }
+    } else {
+        rng.below(cfg.max_imports + 1)
+    };
     let nd = rng.below(cfg.max_declared + 1);
     Doc {
         package: qualified(rng, 1, 4),
